@@ -94,11 +94,20 @@ class World:
         self.nk = nk
         self.pos = {}  # LP kind -> PositionInfo
         self.mute = False
+        self.log = []  # every action record of both markets (the action log of C04)
+        uorig = um._record_action_callback
+
+        def ucb(a, _orig=uorig):
+            self.log.append(a)
+            if _orig is not None:
+                _orig(a)
+        um._record_action_callback = ucb
         orig = sm._record_action_callback
 
         def cb(a, _orig=orig):
             if not self.mute:
                 self.records.append(a)
+            self.log.append(a)
             if _orig is not None:
                 _orig(a)
         sm._record_action_callback = cb
@@ -158,7 +167,7 @@ class World:
         key = self.vkey(ev["vk"]) if "vk" in ev else None
         pos = self.pos[ev["lp"]] if ev.get("lp") else None
         amt = {k: dec(ev[k]) for k in ("dep", "mint", "rate", "a", "b", "w") if k in ev}
-        if op not in ("odm", "rate", "deposit", "bw", "lpdep", "lpwd", "update"):
+        if op not in ("odm", "rate", "deposit", "bw", "lpdep", "lpwd", "update", "liq", "spend"):
             raise ValueError(op)
         try:
             if op == "odm":
@@ -177,6 +186,10 @@ class World:
                 sm.withdraw_uni_position(key, pos)
             elif op == "update":
                 sm.update()
+            elif op == "liq":
+                sm.liquidate(key)
+            elif op == "spend":
+                self.broker.subtract_from_balance(self.osqth, amt["a"])
             return "ok", None, None
         except Exception as e:  # any exception = rejection (class/message recorded, never compared)
             return "reject", None, f"{type(e).__name__}: {e}"
@@ -304,7 +317,7 @@ def py_view(st, tab):
 
 def bind_view(node, ctx):
     """the Python transcription of Safe must agree with what TLC evaluated (else the harness is broken: exit 2)"""
-    if py_view(node["st"], ctx.tab) != node["view"]:
+    if py_view(node["st"], ctx.tab)["v"] != node["view"]["v"]:
         raise RuntimeError(f"harness transcription of Safe/Coll/Debt disagrees with TLC's View on {node['st']}")
 
 
@@ -1116,3 +1129,397 @@ def replay(chk: Check, path: str) -> int:
     os.chdir(str(VERIF))
     col.merge_into(chk)
     return chk.finish("replay of one TLC path")
+
+
+# ===============================================================================================================
+# Cross-market legs of the Squeeth domain: run_cross(chk, owner) for C01 / C03 / C04 (the orchestrators call it;
+# it never calls chk.finish).  Squeeth market + its WETH/oSQTH Uniswap pool under ONE broker whose quote token is a
+# USD stable coin: the pool's quote token (WETH) differs from the account's, Squeeth reports USD.
+# ===============================================================================================================
+ENTRY.update({"liq": "SqueethMarket.liquidate", "spend": "Broker.subtract_from_balance"})
+DUST = Fraction(1, 10 ** 5)
+
+
+def prices_of(sym: int):
+    r = ROWS[sym - 1]
+    return {"WETH": D(r["eth"]), "OSQTH": D(r["eth"]) * D(r["sq"]), "USDC": D(1), "USD": D(1)}
+
+
+def set_quote(W: World):
+    from demeter import TokenInfo
+    W.broker.quote_token = TokenInfo("usdc", 6)
+
+
+def code_nv(W: World, sym: int):
+    """the REAL account valuation: Broker.get_account_status(prices)"""
+    a = W.broker.get_account_status(prices_of(sym))
+    return {"net": frac(a.net_value), "asset": frac(a.asset_value), "uni": frac(a.market_status[W.uk].net_value),
+            "sq": frac(a.market_status[W.sk].net_value)}, a
+
+
+def deep_snapshot(W: World):
+    """what C04 names: wallet balances, every position / vault field of both markets, the action log"""
+    return {
+        "wallet": {t.name: frac(a.balance) for t, a in W.broker._assets.items()},
+        "vaults": {k.id: (frac(v.collateral_amount), frac(v.osqth_short_amount), v.uni_nft_id) for k, v in W.sm.vault.items()},
+        "max_vault_id": W.sm._max_vault_id,
+        "positions": {(p.lower_tick, p.upper_tick): (int(x.liquidity), frac(x.pending_amount0), frac(x.pending_amount1), bool(x.transferred))
+                      for p, x in W.um.positions.items()},
+        "action_log": [id(a) for a in W.log],
+    }
+
+
+def snap_diff(a, b):
+    out = []
+    for k in a:
+        if a[k] != b[k]:
+            if k == "action_log":
+                out.append(f"action log grew by {len(b[k]) - len(a[k])} record(s)")
+            else:
+                out.append(f"{k}: {fl_deep(a[k])} -> {fl_deep(b[k])}")
+    return out
+
+
+def fl_deep(x):
+    if isinstance(x, Fraction):
+        return float(x)
+    if isinstance(x, dict):
+        return {k: fl_deep(v) for k, v in x.items()}
+    if isinstance(x, (tuple, list)):
+        return [fl_deep(v) for v in x]
+    return str(x) if not isinstance(x, (int, float, bool, str, type(None))) else x
+
+
+def cause_of(ev, err):
+    m = re.match(r"(\w+): (.*)", err or "")
+    cls, msg = (m.group(1), m.group(2)) if m else ("?", "")
+    msg = re.sub(r"[-+]?\d[\d.,E+-]*", "#", msg)[:48]
+    return f"{ENTRY[ev['op']].split('.')[1]}|{cls}: {msg}"
+
+
+def nv_close(a, b, live):
+    return close(a, b, REL_FLOAT if live else Fraction(1, 10 ** 28), Fraction(1, 10 ** 20))
+
+
+def c01_compare(col: Col, owner, W: World, node, sym, live, where, mk_replay, nv_spec=None):
+    """reported account value vs the spec's valuation of the same (conformant) state"""
+    if owner != "C01":
+        return True
+    got, acct = code_nv(W, sym)
+    want = nv_spec or node["view"]["nv"]
+    lent = any(v["lp"] for v in node["st"]["vaults"])
+    scen = ("lp_in_vault" if lent else "lp_redeemed" if "gone" in node["st"]["lps"] else "lp_in_pool") + ("/live" if live else "")
+    names = {"net": "net_value", "asset": "asset_value", "uni": "uniswap_market_net_value", "sq": "squeeth_market_net_value"}
+    for k in ("asset", "uni", "sq", "net"):
+        col.count(f"C01/squeeth/{names[k]}")
+        if not nv_close(got[k], want[k], live):
+            ent = {"net": "Broker.get_account_status", "asset": "Broker.get_account_status", "uni": "UniLpMarket.get_market_balance",
+                   "sq": "SqueethMarket.get_market_balance"}[k]
+            col.violation(f"{ent}|{names[k]}|{scen}",
+                          f"{where}: reported {names[k]} {float(got[k])!r}, independent valuation {float(want[k])!r} "
+                          f"(vaults {show_vaults(node['st'])}, LP positions {list(node['st']['lps'])}, wallet WETH {float(node['st']['weth'])!r} "
+                          f"oSQTH {float(node['st']['sqth'])!r}, prices {ROWS[sym - 1]})", mk_replay())
+            return False
+    # every holding once: the pool must not count a lent position, the vault must not count a withdrawn one (implied by the
+    # two market values above; kept as its own clause for the evidence)
+    col.count("C01/squeeth/counted_once")
+    bal = acct.market_status[W.sk]
+    col.count("C01/squeeth/info/balance_fields")
+    e = env_of(node["st"])
+    if not nv_close(frac(bal.osqth_short_amount), sum((v["short"] for v in node["st"]["vaults"]), Fraction(0)), live) or \
+            not nv_close(frac(bal.osqth_long_amount), node["st"]["sqth"], live) or bal.vault_count != len(node["st"]["vaults"]):
+        col.count("C01/squeeth/info/balance_fields_diff")
+    return True
+
+
+def cross_step(col: Col, owner, W: World, pre, exp, ev, live, ctx: Ctx, mk_replay):
+    """apply one event to the real objects with the owner's checks around it; True = conformant, go on"""
+    sym = pre["st"]["path"][-1]
+    pst, est, last = pre["st"], exp["st"], exp["last"]
+    entry = ENTRY[ev["op"]]
+    tol = tol_of(live)
+    before = deep_snapshot(W) if owner == "C04" else None
+    nv0 = code_nv(W, sym)[0]["net"] if owner == "C03" else None
+    w0 = W.project()
+    W.records.clear()
+    out, ret, err = W.apply(ev)
+    proj = W.project()
+    what = f"{entry.split('.')[1]}{ev_str(ev)} -> {'returned' if out == 'ok' else 'raised ' + str(err)}"
+    col.evals += 1
+    if out == "reject":
+        col.notes.setdefault("causes", [])
+        c = cause_of(ev, err)
+        if c not in col.notes["causes"]:
+            col.notes["causes"].append(c)
+
+    if owner == "C04" and out == "reject":
+        col.count("C04/squeeth/rejected_call_leaves_state")
+        d = snap_diff(before, deep_snapshot(W))
+        if d:
+            col.violation(f"{entry}|rejected_call_changes_state|{cause_of(ev, err).split('|')[1][:40]}", f"{what}: {'; '.join(d)}", mk_replay())
+            return False
+
+    if owner == "C03" and ev["op"] not in ("update", "liq"):
+        col.count("C03/squeeth/no_value_creation")
+        nv1 = code_nv(W, sym)[0]["net"]
+        px = {k: frac(v) for k, v in prices_of(sym).items()}
+        debited = Fraction(0)
+        if proj["weth"] < w0["weth"]:
+            debited += w0["weth"] * px["WETH"]
+        if proj["sqth"] < w0["sqth"]:
+            debited += w0["sqth"] * px["OSQTH"]
+        allow = DUST * debited + abs(nv0) * (REL_FLOAT if live else Fraction(1, 10 ** 25))
+        if nv1 - nv0 > allow:
+            col.violation(f"{entry}|net_value_rises|{'rejected' if out == 'reject' else 'accepted'}/{scen_of(ev, pst, live).split('/')[0]}",
+                          f"{what}: account net value {float(nv0)!r} -> {float(nv1)!r} (+{float(nv1 - nv0)!r}) at unchanged prices "
+                          f"{ROWS[sym - 1]}; dust allowance {float(allow)!r}; vaults before {show_vaults(pst)}", mk_replay())
+            return False
+        if nv1 != nv0:
+            col.count("C03/squeeth/info/net_value_changed")
+    if owner == "C03":
+        col.count("C03/squeeth/non_negative")
+        neg = [v for v in proj["vaults"] if v["coll"] < 0 or v["short"] < 0]
+        if neg or proj["weth"] < 0 or proj["sqth"] < 0 or any(int(x.liquidity) < 0 for x in W.um.positions.values()):
+            col.violation(f"{entry}|negative_amount|{scen_of(ev, pst, live).split('/')[0]}",
+                          f"{what}: vaults {show_vaults({'vaults': proj['vaults']})}, wallet WETH {float(proj['weth'])!r} oSQTH {float(proj['sqth'])!r}",
+                          mk_replay())
+            return False
+        if ev["op"] == "bw" and out == "ok" and ev["vk"] <= len(w0["vaults"]):
+            col.count("C03/squeeth/payout_bounded")
+            v0 = w0["vaults"][ev["vk"] - 1]
+            if proj["weth"] - w0["weth"] > v0["coll"] or w0["sqth"] - proj["sqth"] > v0["short"]:
+                col.violation(f"{entry}|pays_out_more_than_held|", f"{what}: wallet WETH +{float(proj['weth'] - w0['weth'])!r} from a vault "
+                              f"holding {float(v0['coll'])!r}; oSQTH burned {float(w0['sqth'] - proj['sqth'])!r} of debt {float(v0['short'])!r}",
+                              mk_replay())
+                return False
+
+    # conformance gate (C14's own business: counted, never alarmed here)
+    col.count(f"other/C14/{owner}/conformance")
+    if out != last["out"] or state_diff(proj, est, tol):
+        col.count(f"other/C14/{owner}/diverged_or_band")
+        return False
+    return True
+
+
+def replay_cross_exact(col: Col, owner, states, ctx: Ctx, verified, ids):
+    W = World(ctx.nk)
+    W.set_row(states[0]["st"]["path"][-1])
+    W.create_lps()
+    set_quote(W)
+    W.log.clear()
+    for i in range(1, len(states)):
+        pre, exp = states[i - 1], states[i]
+        ev = exp["last"]["ev"]
+        fresh = ids[i] not in verified
+
+        def mk_replay(i=i):
+            return {"kind": "cross_exact", "owner": owner, "nk": ctx.nk, "states": to_json_states(states[:i + 1])}
+        if ev["op"] == "next":
+            W.set_row(ev["sym"])
+            ok = True
+        elif fresh:
+            ok = cross_step(col, owner, W, pre, exp, ev, False, ctx, mk_replay)
+        else:
+            W.apply(ev)
+            ok = True
+        if ok and fresh:
+            ok = c01_compare(col, owner, W, exp, exp["st"]["path"][-1], False,
+                             f"after {ENTRY.get(ev['op'], 'next row').split('.')[-1]}{ev_str(ev)}", mk_replay)
+        verified.add(ids[i])
+        if not ok:
+            verified.discard(ids[i])
+            return i
+    col.traces += 1
+    return None
+
+
+def work_cross(args):
+    tab, nk, labels, paths, tmp, done, owner = args
+    _chdir_scratch(tmp)
+    ctx, col = Ctx(tab, nk), Col()
+    parsed, verified, failed = {}, set(done), set()
+    for p in paths:
+        if any(n in failed for n in p):
+            continue
+        for n in p:
+            if n not in parsed:
+                parsed[n] = parse_node(labels[n])
+        cut = replay_cross_exact(col, owner, [parsed[n] for n in p], ctx, verified, p)
+        if cut is not None:
+            failed.add(p[cut])
+    return col, verified - set(done), failed
+
+
+def replay_cross_live(col: Col, owner, states, ctx: Ctx):
+    """C01 at every bar of a back-test: Actuator.account_status[i] and the status after every call vs the spec's valuation"""
+    import contextlib
+    import io
+    from demeter import Strategy
+    from .. import sim
+    path = list(states[-1]["st"]["path"])
+    nb = len(path)
+    sched = {b: [] for b in range(nb)}
+    b = 0
+    for i in range(1, len(states)):
+        sched[b].append(i)
+        if states[i]["last"]["ev"]["op"] == "bar":
+            b += 1
+    act, um, sm = build_actuator(path, ctx.nk)
+    W = World(ctx.nk, broker=act.broker, um=um, sm=sm)
+    run = {"ok": True, "exc": None, "cut_bar": nb}
+
+    def mk(i):
+        return lambda: {"kind": "cross_live", "owner": owner, "nk": ctx.nk, "states": to_json_states(states[:i + 1])}
+
+    class S(Strategy):
+        def initialize(self_):
+            W.create_lps()
+
+        def on_bar(self_, snap):
+            if not run["ok"]:
+                return
+            try:
+                bar = sim.to_min(snap.timestamp)
+                idxs = sched[bar]
+                node = states[idxs[0] - 1] if idxs else states[-1]
+                if not c01_compare(col, owner, W, node, path[bar], True, f"bar {bar} of path {path[:bar + 1]} before the calls",
+                                   mk(idxs[0] - 1 if idxs else len(states) - 1)):
+                    run["ok"], run["cut_bar"] = False, bar
+                    return
+                for i in idxs:
+                    ev = states[i]["last"]["ev"]
+                    if ev["op"] == "bar":
+                        break
+                    if not cross_step(col, owner, W, states[i - 1], states[i], ev, True, ctx, mk(i)) or \
+                            not c01_compare(col, owner, W, states[i], path[bar], True,
+                                            f"bar {bar}: after {ENTRY[ev['op']].split('.')[1]}{ev_str(ev)}", mk(i)):
+                        run["ok"], run["cut_bar"] = False, bar
+                        return
+            except Exception as e:
+                run["exc"], run["ok"] = e, False
+
+    act.strategy = S()
+    try:
+        with contextlib.redirect_stdout(io.StringIO()):
+            act.run(print_result=False)
+    except Exception:
+        if run["exc"] is None:
+            col.count(f"other/C14/{owner}/bar_loop_raised")
+            return False
+    if run["exc"] is not None:
+        raise run["exc"]
+    # the account status the Actuator recorded at the end of every bar (after update()), under that bar's prices
+    if owner == "C01":
+        tol = tol_of(True)
+        for bar in range(min(run["cut_bar"], nb - 1)):
+            i = sched[bar][-1]
+            last = states[i]["last"]
+            if last["ev"]["op"] != "bar" or last["band"]:
+                break
+            a = act.account_status[bar]
+            got = {"net": frac(a.net_value), "asset": frac(a.asset_value), "uni": frac(a.market_status[W.uk].net_value),
+                   "sq": frac(a.market_status[W.sk].net_value)}
+            want = last["nvend"]
+            col.count("C01/squeeth/bar_end_account_status")
+            bad = [k for k in ("asset", "uni", "sq", "net") if not nv_close(got[k], want[k], True)]
+            if bad:
+                # a liquidation decision / amount that differs is C14's matter: only alarm when the bar-end state itself conforms
+                col.violation(f"Actuator.account_status|{'+'.join(bad)}|bar_end/{'liquidation' if last['acts'] else 'no_liquidation'}",
+                              f"bar {bar} of path {path[:bar + 1]}: recorded {', '.join(f'{k} {float(got[k])!r}' for k in bad)}; independent "
+                              f"valuation {', '.join(f'{k} {float(want[k])!r}' for k in bad)}; liquidation steps "
+                              f"{[a_['t'] for a_ in last['acts']]}; vaults before bar end {show_vaults(states[i - 1]['st'])}", mk(i)())
+                return False
+    if run["ok"]:
+        col.traces += 1
+    return run["ok"]
+
+
+def work_cross_live(args):
+    tab, nk, files, tmp, owner = args
+    _chdir_scratch(tmp)
+    ctx, col = Ctx(tab, nk), Col()
+    for f in files:
+        states = parse_sim_file(f)
+        if len(states) > 1:
+            replay_cross_live(col, owner, states, ctx)
+    return col
+
+
+CROSS_DEVS = {"C04": {"DepositCreditsFirst": "P_C04_Intact", "BurnKeptOnReject": "P_C04_Intact"},
+              "C03": {"LentLpAtIndex": "P_C03_NoValueCreation", "BountyUncapped": "Inv_NonNeg"},
+              "C01": {"LentLpAtIndex": "P_C03_NoValueCreation"}}
+
+
+def run_cross(chk: Check, owner: str):
+    """Squeeth leg of the cross-market properties C01 / C03 / C04 (see /verif/DESIGN.md).  Adds to chk, never finishes it."""
+    from concurrent.futures import ThreadPoolExecutor
+    assert owner in ("C01", "C03", "C04")
+    quick = chk.tier == "quick"
+    rnd = random.Random(chk.seed)
+    tab = lp_table()
+    d = stage(chk, tab)
+    spec = d / "MC_Squeeth.tla"
+    nk = len(LP_KINDS)
+    scratch = str(chk.tmp / "cwd_squeeth")
+    chk.assumptions.append(
+        "squeeth: the (WETH, oSQTH) amounts of an LP position at a pool price are taken from UniLpMarket.get_position_amount (table "
+        "SqueethU.tla, pending fees 0); the spec values wallet, vault ETH, debt and LP amounts under the bar's row "
+        "(ETH price, oSQTH price) - an LP position is worth WETH + oSQTH x oSQTH price whoever holds it; account quote token is a USD "
+        "stable coin, the pool's quote token is WETH (converted with the bar's ETH price), Squeeth reports USD")
+
+    def dev(name):
+        return name, tlc.run(spec, d / f"MC_Squeeth_dev_{name}.cfg", chk.tmp, workers=2, timeout=600)
+    with ThreadPoolExecutor(max_workers=4) as ex:
+        devres = dict(ex.map(dev, CROSS_DEVS[owner]))
+    for name, inv in CROSS_DEVS[owner].items():
+        hit = inv in devres[name].violated
+        chk.extra.setdefault("dev_switch_detected", {})[f"squeeth/DEV_{name}"] = {"violates": inv, "detected": hit}
+        if not hit:
+            raise RuntimeError(f"vacuous: DEV_{name} does not violate {inv} (TLC: {devres[name].violated})")
+
+    cols = []
+    for cfg in (["MC_Squeeth_cross.cfg"] if quick else ["MC_Squeeth_cross.cfg", "MC_Squeeth_cross2.cfg"]):
+        base = chk.tmp / ("sq_graph_" + cfg[:-4])
+        res = tlc.run(spec, d / cfg, chk.tmp, workers=16, timeout=1200, args=("-dump", "dot,actionlabels", str(base)))
+        chk.add_tlc(res, f"squeeth/{cfg}")
+        for inv in res.violated:
+            own = {"P_C04_Intact": "C04", "P_C03_NoValueCreation": "C03", "P_C03_PayoutBounded": "C03", "Inv_NonNeg": "C03",
+                   "Inv_C01_Once": "C01"}.get(inv)
+            if own == owner:
+                chk.violation(f"SqueethMarket|spec|{inv}/{cfg}", f"TLC reports {inv} violated in {cfg}", {"kind": "tlc", "run": cfg})
+            else:
+                chk.count(f"other/C14/spec_{inv}")
+        dot = Path(str(base) + ".dot")
+        nodes, edges, init = load_dot_raw(dot)
+        dot.unlink()
+        paths = sorted(leaf_paths(nodes, edges, init))
+        budget = 9000 if quick else 120000
+        if len(paths) > budget:
+            paths = sorted(rnd.sample(paths, budget))
+            chk.extra[f"squeeth_{owner}_sampled_paths"] = budget
+        n = max(1, min(64, len(paths) // 50))
+        size = (len(paths) + n - 1) // n
+        items = []
+        for i in range(0, len(paths), size):
+            chunk = paths[i:i + size]
+            need = {x for p in chunk for x in p}
+            items.append((tab, nk, {x: nodes[x] for x in need}, chunk, scratch, set(), owner))
+        cols += [c for c, _, _ in pool_map(work_cross, items)]
+        del nodes, edges
+    if owner == "C01" or not quick:
+        num = 32 if quick else 320
+        simdir = chk.tmp / "sq_sim"
+        simdir.mkdir()
+        res = tlc.run(spec, d / "MC_Squeeth_crosslive.cfg", chk.tmp, workers=16, timeout=1200,
+                      args=("-simulate", f"file={simdir}/tr,num={(num + 15) // 16}", "-depth", "40", "-seed", str(chk.seed)))
+        chk.add_tlc(res, "squeeth/crosslive(simulate)")
+        for inv in res.violated:
+            chk.count(f"other/C14/spec_{inv}")
+        files = sorted(str(f) for f in simdir.iterdir())
+        cols += pool_map(work_cross_live, [(tab, nk, files[i::16], scratch, owner) for i in range(16) if files[i::16]])
+    causes = set()
+    for col in cols:
+        causes |= set(col.notes.pop("causes", []))
+        col.merge_into(chk)
+    chk.extra["squeeth_reject_causes"] = sorted(set(chk.extra.get("squeeth_reject_causes", [])) | causes)
+    return None
